@@ -20,5 +20,7 @@ for p in args:
         for f in ("patch.diff", "demo.py"): shutil.copy(d + "/" + f, dst + "/" + f)
         m = o["meta"]; m["confirmed_by"] = "tools/seed_eval.py: patch applied to a scratch worktree of /repo HEAD; demo.py exit 1 with the change and exit 0 on /repo; baseline suite %s stable passes with the change" % o["suite"]
         m["repo_head"] = os.popen("git -C /repo rev-parse --short HEAD").read().strip()
+        st = "VIOLATION" if p in o["violations"] else ("ANALYSIS-ERROR" if p in o["analysis_errors"] else "silent")
+        m["first_eval"] = {"own_property_check": st, "verif_commit": os.popen("git -C /verif rev-parse --short HEAD").read().strip()}
         json.dump(m, open(dst + "/meta.json", "w"), indent=1)
-        print("kept", dst, "own-property check:", "VIOLATION" if p in o["violations"] else ("ANALYSIS-ERROR" if p in o["analysis_errors"] else "silent"))
+        print("kept", dst, "own-property check:", st)
